@@ -35,11 +35,12 @@ import json
 import core
 
 LEVEL = "proof"
-EXTRA_TARGETS = ["model/ImgIterTie.vo", "model/ImgIterReentTie.vo"]
+EXTRA_TARGETS = ["model/ImgIterTie.vo", "model/ImgIterReentTie.vo", "model/ImgIterFinTie.vo"]
 
 HEADER = ("From Coq Require Import List ZArith Bool.\nImport ListNotations.\n"
           "From TI Require Import model.ImgIter model.ImgIterSpec model.ImgIterEnv model.ImgIterTie.\n"
-          "From TI Require Import model.ImgIterReent model.ImgIterReentTie.\nLocal Open Scope nat_scope.\n")
+          "From TI Require Import model.ImgIterReent model.ImgIterReentTie.\n"
+          "From TI Require Import model.ImgIterFin model.ImgIterFinTie.\nLocal Open Scope nat_scope.\n")
 Z = core.z
 
 
@@ -359,6 +360,52 @@ FAULT_CORPUS = [
 ]
 
 
+# ------------------------------------------------ round 8: the output stream breaks during an animated draw()
+
+SF_EXC = {"broken_pipe": "BrokenPipeError", "oserror": "OSError", "closed": "ValueError"}
+_SSRC = {"kind": "new", "seed": 5, "w": 8, "h": 6, "mode": "P", "frames": 3, "fmt": "GIF"}
+
+
+def gen_sfault_case(rng, quick):
+    style = rng.choice(["block", "kitty", "iterm2"])
+    src = {"kind": "new", "seed": rng.randrange(1 << 30), "w": rng.randint(4, 10), "h": rng.randint(4, 8),
+           "mode": rng.choice(["P", "RGB", "RGBA"]), "frames": rng.randint(2, 5), "fmt": "GIF"}
+    if src["mode"] != "P":
+        src["fmt"] = "WEBP"
+    c = {"part": "sfault", "style": style, "src": src, "source": rng.choice(["file", "pil_file", "pil", "file"]),
+         "size": [rng.randint(1, 6), rng.randint(1, 3)], "cell": [rng.randint(2, 10), rng.randint(4, 20)],
+         "pos0": rng.randint(1, 4) if rng.random() < 0.85 else 0, "repeat": rng.choice([1, 1, 2]),
+         "cached": rng.choice([True, False, 100]), "exc": rng.choice(list(SF_EXC)), "tty": rng.random() < 0.3,
+         "term": rng.choice(["wezterm", "iterm2", "konsole"])}
+    if style == "iterm2" and rng.random() < 0.5:
+        c["style_args"] = {"method": rng.choice(["whole", "lines"])}
+    if style == "kitty" and rng.random() < 0.5:
+        c["style_args"] = {"method": rng.choice(["whole", "lines"])}
+    if quick:
+        # a spread of positions: the first calls, some in the middle, the LAST ones (the clean-up's)
+        c["ks"] = [0, 1, rng.randint(2, 12), rng.randint(4, 30), -5, -4, -3, -2, -1]
+    else:
+        c["ks"] = None  # every position of the fault-free run
+    return c
+
+
+SFAULT_CORPUS = [
+    # file source, start frame 1, every position of the fault-free run (the clean-up's included)
+    {"part": "sfault", "style": "block", "src": _SSRC, "source": "file", "size": [4, 2], "cell": [4, 4], "pos0": 1,
+     "repeat": 1, "cached": False, "exc": "broken_pipe", "tty": False, "ks": None},
+    # the caller's PIL image (opened from a file), cached second pass, stdout "a terminal" that went away
+    {"part": "sfault", "style": "kitty", "src": _SSRC, "source": "pil_file", "size": [4, 2], "cell": [4, 4], "pos0": 2,
+     "repeat": 2, "cached": True, "exc": "closed", "tty": True, "ks": None},
+    # PIL image decoded from bytes; LINES method
+    {"part": "sfault", "style": "iterm2", "src": _SSRC, "source": "pil", "size": [4, 2], "cell": [4, 4], "pos0": 1,
+     "repeat": 1, "cached": False, "exc": "oserror", "tty": False, "term": "konsole",
+     "style_args": {"method": "lines"}, "ks": None},
+    # start frame 0: the run leaves the position at the last frame unless restored
+    {"part": "sfault", "style": "block", "src": dict(_SSRC, frames=2), "source": "file", "size": [3, 1], "cell": [4, 8],
+     "pos0": 0, "repeat": 1, "cached": False, "exc": "broken_pipe", "tty": True, "ks": None},
+]
+
+
 # ------------------------------------------------ round 7: close() while a next() is executing
 
 HOWS = ["reent", "thread", "signal"]
@@ -572,6 +619,21 @@ def fault_term(c, r):
     return "{| fc_expect_tell_kept := %s; fc_runs := %s |}" % (b(fault_expect(c)), core.coq_list(runs))
 
 
+def sfrun_term(c, r):
+    exc_ok = r["raised"] in ("", SF_EXC[c.get("exc", "broken_pipe")])
+    return ("{| sr_k := %s; sr_raised := %s; sr_exc_ok := %s; sr_tell := %d; sr_unclosed := %s; sr_fd_after := %s; "
+            "sr_fd_end := %s; sr_size_kept := %s; sr_pil_alive := %s |}" % (
+                Z(r["k"]), b(r["raised"] != ""), b(exc_ok), r["tell"], Z(r["unclosed"]), Z(r["fd_after"]), Z(r["fd_end"]),
+                b(r["size_kept"]), b(r["pil_alive"])))
+
+
+def sfault_term(c, r):
+    base = r["base"]
+    runs = [sfrun_term(c, base)] + [sfrun_term(c, x) for x in r["runs"]]
+    return "{| sc_nframes := %d; sc_passes := %d; sc_pos0 := %d; sc_total := %d; sc_runs := %s |}" % (
+        base["nframes"], c.get("repeat", 1), base["tell0"], base["calls"], core.coq_list(runs))
+
+
 def url_term(c, r):
     ops = []
     for o in c["ops"]:
@@ -591,6 +653,7 @@ def url_term(c, r):
 
 PARTS = {"iter": ("itcase", "bad check_iter cases", iter_term), "reent": ("rcase", "bad check_reent cases", reent_term),
          "fault": ("fcase", "bad check_fault cases", fault_term),
+         "sfault": ("sfcase", "bad check_sfault cases", sfault_term),
          "url": ("ucase", "bad check_url cases", url_term)}
 
 
@@ -667,6 +730,19 @@ def simpler(c):
             if ok and rest:
                 out.append({**c, "ops": rest})
         return out
+    if c["part"] == "sfault":
+        # one position at which the stream breaks (from the end first: the clean-up's calls), then a plainer scenario
+        if c.get("ks") is None or len(c["ks"]) > 1:
+            for x in ([-1, -2, -3, -4, -5] + [k for k in (c.get("ks") or [0, 1, 2, 3, 5, 8, 13]) if k >= 0]):
+                out.append({**c, "ks": [x]})
+            return out
+        for k, v in (("tty", False), ("cached", False), ("repeat", 1), ("source", "file"), ("exc", "broken_pipe"),
+                     ("style_args", None), ("pos0", 1)):
+            if c.get(k) not in (v, None):
+                out.append({kk: vv for kk, vv in {**c, k: v}.items() if vv is not None or kk == "ks"})
+        if c["src"].get("frames", 1) > 2:
+            out.append({**c, "src": dict(c["src"], frames=2)})
+        return out
     for k, v in (("kbd", False), ("pos0", 0), ("source", "file")):
         if c.get(k) not in (v, None):
             out.append({**c, k: v})
@@ -701,6 +777,12 @@ def describe(c):
     if c["part"] == "fault":
         return (f"fault {c['style']} src={src_str(c['src'])} via {c['source']} action={c['action']} spec={c['spec']!r} "
                 f"size={c['size']} " + " ".join(f"{k}={c[k]}" for k in ("bad", "repeat", "cached", "take", "end", "kbd", "style_args") if k in c))
+    if c["part"] == "sfault":
+        return (f"sfault {c['style']} animated draw() src={src_str(c['src'])} via {c['source']} size={c['size']} "
+                f"pos0={c.get('pos0', 0)} repeat={c.get('repeat', 1)} cached={c.get('cached')} isatty={bool(c.get('tty'))} "
+                f"stream raises {SF_EXC[c.get('exc', 'broken_pipe')]} from its k-th write()/flush() on, "
+                f"k in {'every position of the fault-free run' if c.get('ks') is None else c['ks']}"
+                + (f" style_args={c['style_args']}" if c.get("style_args") else ""))
     return f"url {c['style']} ops={c['ops']}"
 
 
@@ -724,6 +806,10 @@ def explain(c, r):
         bad = [x for x in [r["base"]] + r["runs"] if x.get("unclosed") or x.get("fd_after_action") or x.get("fd_end")
                or not x.get("size_kept") or not x.get("pil_alive") or not x.get("tell_kept")]
         return {"base": r["base"], "offending_runs": bad[:5]}
+    if c["part"] == "sfault":
+        bad = [x for x in [r["base"]] + r["runs"] if x.get("unclosed") or x.get("fd_after") or x.get("fd_end")
+               or not x.get("size_kept") or not x.get("pil_alive") or x.get("tell") != x.get("tell0")]
+        return {"fault_free_run": r["base"], "offending_runs(k = calls accepted before the stream broke)": bad[:5]}
     return r
 
 
@@ -741,6 +827,7 @@ def run(ctx):
         cases = list(ITER_CORPUS) + [gen_iter_case(rng, long=(i % 4 == 0)) for i in range(ni)]
         cases += list(REENT_CORPUS) + [gen_reent_case(rng) for _ in range(14 if ctx.quick else 400)]
         cases += list(FAULT_CORPUS) + [gen_fault_case(rng, ctx.quick) for _ in range(nf)]
+        cases += list(SFAULT_CORPUS) + [gen_sfault_case(rng, ctx.quick) for _ in range(8 if ctx.quick else 150)]
         cases += list(URL_CORPUS) + [gen_url_case(rng) for _ in range(nu)]
     codes, errors, impl = evaluate(cases)
     hist = {"part": {}, "iter_style": {}, "iter_ops": {}, "iter_outcomes": {}, "iter_cache_on": 0, "iter_fail_frame": 0,
@@ -751,7 +838,10 @@ def run(ctx):
             "iter_yields_after_env_change_with_cache": 0, "iter_yields_whose_direct_frame_changed_with_env": 0,
             "reent_ops": {}, "reent_delivery(calls made)": {}, "reent_close_calls_made": 0,
             "reent_close_calls_refused": 0, "reent_next_with_refusal_outcome": {},
-            "reent_cases_released_after_a_refusal(file source)": 0}
+            "reent_cases_released_after_a_refusal(file source)": 0,
+            "sfault_runs": 0, "sfault_style": {}, "sfault_source": {}, "sfault_exc": {}, "sfault_isatty": {},
+            "sfault_runs_stream_refused_a_call": 0, "sfault_runs_broken_in_the_last_5_calls(clean-up)": 0,
+            "sfault_raised": {}, "sfault_calls_refused_per_run": {}, "sfault_pos0": {}}
 
     def inc(d, k, v=1):
         d[str(k)] = d.get(str(k), 0) + v
@@ -825,6 +915,22 @@ def run(ctx):
                     distinct.add(signature(c) + f"/k{x['k']}")
             if c["action"] == "draw_bad" and r["base"]["raised"]:
                 distinct.add(signature(c))
+        elif c["part"] == "sfault":
+            evaluations += 1 + len(r["runs"])
+            hist["sfault_runs"] += 1 + len(r["runs"])
+            inc(hist["sfault_style"], c["style"])
+            inc(hist["sfault_source"], c["source"])
+            inc(hist["sfault_exc"], c.get("exc", "broken_pipe"))
+            inc(hist["sfault_isatty"], bool(c.get("tty")))
+            inc(hist["sfault_pos0"], r["base"]["tell0"])
+            for x in r["runs"]:
+                inc(hist["sfault_raised"], x["raised"] or "(none)")
+                inc(hist["sfault_calls_refused_per_run"], x["failed"])
+                if x["failed"]:
+                    hist["sfault_runs_stream_refused_a_call"] += 1
+                    distinct.add(signature({k: v for k, v in c.items() if k != "ks"}) + f"/s{x['k']}")
+                if x["k"] >= r["base"]["calls"] - 5:
+                    hist["sfault_runs_broken_in_the_last_5_calls(clean-up)"] += 1
         elif c["part"] == "url":
             evaluations += 1
             for o, row in zip(c["ops"], r["rows"]):
@@ -857,7 +963,8 @@ def run(ctx):
     return {
         "corr_name": "ImgIter.step (two-phase generator) == ImageIterator histories; ImgIterSpec (direct formatting) == the same; "
                      "ImgIterReent.rstep (close() arriving while a next() executes) == the same with concurrent close() calls; "
-                     "fault enumeration with Image.open / Image.close pairing + fd / temp-file observation",
+                     "fault enumeration with Image.open / Image.close pairing + fd / temp-file observation; "
+                     "ImgIterFin.anim_draw code_cleanup == animated draw() into a stream that starts failing at its k-th call",
         "evaluations": evaluations,
         "distinct_nontrivial": len(distinct),
         "rule": "iter: corpus + random histories (3-45 ops of next / seek incl. out-of-range / close / drop / size change / "
@@ -882,12 +989,22 @@ def run(ctx):
                 "or drop incl. before the first frame / n_frames / draw with a rejected repeat, cached or style argument) x every "
                 "index k of the library's PIL convert/resize/alpha_composite/save/tobytes calls (first 8 in the quick tier for "
                 "generated scenarios, all for the corpus); one evaluation per run; non-trivial: the fault was reached or the "
-                "argument was rejected.  url: open (200 image / 404 / non-image / empty body / bad constructor argument) / use / "
+                "argument was rejected.  sfault (round 8): animated draw() of old-API images (block / kitty / "
+                "iterm2; file, PIL-from-file, PIL-from-bytes sources; synthetic GIF/WEBP of 2-5 frames; start frame mostly != 0; "
+                "repeat 1-2; cached bool/int; stdout reporting isatty() or not) with sys.stdout replaced by a stream whose "
+                "write()/flush() calls succeed k times and then raise for ever (BrokenPipeError / OSError / ValueError('I/O "
+                "operation on closed file')), a fake sleeper; a counting run first, then k = EVERY position of the fault-free run "
+                "for the corpus and in the thorough tier, a spread (first two, two inner, the LAST FIVE: the clean-up's calls) for "
+                "generated scenarios in the quick tier; per run: raised?, the stream's own exception?, image.tell() after vs before, "
+                "Image.open/close pairing, descriptors, size setting, caller's PIL image usable; judged by check_sfault in Coq "
+                "(spec side: a function of the observation alone; model side: anim_draw code_cleanup); one evaluation per run; "
+                "non-trivial: the stream refused at least one call.  url: open (200 image / 404 / non-image / empty body / bad constructor argument) / use / "
                 "close / with / del histories over 3 slots.",
         "samples": [describe(c) for c in (
             [c for c in cases if c["part"] == "iter"][:1] + [c for c in cases if c["part"] == "iter"][len(ITER_CORPUS):][:1]
             + [c for c in cases if c["part"] == "reent"][:1] + [c for c in cases if c["part"] == "reent"][len(REENT_CORPUS):][:1]
             + [c for c in cases if c["part"] == "fault"][:1] + [c for c in cases if c["part"] == "fault"][len(FAULT_CORPUS):][:2]
+            + [c for c in cases if c["part"] == "sfault"][:1] + [c for c in cases if c["part"] == "sfault"][len(SFAULT_CORPUS):][:1]
             + [c for c in cases if c["part"] == "url"][-1:])],
         "histogram": hist,
         "mismatches": mismatches,
@@ -911,12 +1028,17 @@ def run(ctx):
             "hand-written skeletons of _get_render_data / _render_image (model/ImgSkel.v): every call other than _close_image has no "
             "effect on the image passed in; frame=True only for animated images (ImageIterator refuses others)",
             "the code modelled is /repo + pending_fixes/C11_close_unrendered_images.diff",
+            "stream faults (round 8): the output stream is modelled as accepting a number of further write()/flush() calls and "
+            "refusing every later one (a stream that recovers after a refused call is not modelled); image_it.close(), "
+            "_close_image() and the assignment to _seek_position do not fail because of the stream; cursor_down() is pure; "
+            "the tie to the source is the generated skeleton's finally block (tx_skel.py's call table decides what is a "
+            "stream call)",
             "concurrent close(): a call that arrives while the frame generator is executing is answered by CPython's "
             "generator.close() with ValueError('generator already executing') before anything else happens (model: close_code); "
             "the driver delivers such calls at the first _render_image of the next() in progress (same thread re-entrantly, a "
             "second thread while the rendering thread waits, a signal handler); a call landing between two bytecodes of close() "
             "ITSELF in another thread (true preemption inside close) is not modelled",
         ],
-        "trusted": ["impl_c11.py (wrappers around PIL.Image.open, Image.close and five Image methods, /proc/self/fd listing, local "
+        "trusted": ["impl_c11.py BreakingStream (the k-th and every later write()/flush() raises; isatty() as told)", "impl_c11.py (wrappers around PIL.Image.open, Image.close and five Image methods, /proc/self/fd listing, local "
                     "http.server)", "harness/tx/tx_skel.py (call table of the translated skeletons)"],
     }
